@@ -2,7 +2,7 @@ INIT Init
 NEXT Next
 CONSTANTS
   MaxTx = 3
-  SiblingReadsIsolated = TRUE
+  SiblingReadsIsolated = FALSE
   RF = 3
 INVARIANTS GateIsPrefix UnconfirmedHidden SiblingRevealsNothingUnconfirmed StreamPrefix Emit
 CHECK_DEADLOCK FALSE
